@@ -1,13 +1,6 @@
 From Coq Require Import List Arith Lia ZArith.
-From Outrank Require Import MI.MIcore.
+From Outrank Require Import MI.MIcore MI.Model MI.Spec.
 Import ListNotations.
-
-(* transcription-level objects: np.where(X == v)[0] and fancy indexing *)
-Fixpoint where_eq (i : nat) (v : Z) (X : list Z) : list nat :=
-  match X with
-  | [] => []
-  | x :: r => if Z.eqb x v then i :: where_eq (S i) v r else where_eq (S i) v r
-  end.
 
 Lemma count_where_general (F : nat -> Z) v c X : forall i,
   count_occ Z.eq_dec (map F (where_eq i v X)) c
@@ -45,10 +38,6 @@ Proof.
 Qed.
 
 (* displaced ("spoofed") class counts of a stratum = joint counts with the displaced vector *)
-Definition displace (Y X : list Z) : list Z :=
-  let n := length Y in
-  map (fun i => nth ((i + count_occ Z.eq_dec X (nth i X 0%Z)) mod n) Y 0%Z) (seq 0 n).
-
 Theorem spoof_counts X Y v c : length X = length Y ->
   let n := length Y in let k := count_occ Z.eq_dec X v in
   count_occ Z.eq_dec (map (fun el => nth ((el + k) mod n) Y 0%Z) (where_eq 0 v X)) c
